@@ -87,3 +87,20 @@ func parallel(n, j int, f func(int)) {
 	close(ch)
 	wg.Wait()
 }
+
+// watchdog runs f in its own goroutine and gives up after d: a run that neither
+// returns nor reacts to its (already cancelled) context is hung inside the
+// interpreter. The goroutine is abandoned; the process exits when the batch is done.
+func watchdog(d time.Duration, f func()) (hung bool) {
+	done := make(chan struct{})
+	go func() {
+		defer close(done)
+		f()
+	}()
+	select {
+	case <-done:
+		return false
+	case <-time.After(d):
+		return true
+	}
+}
